@@ -254,14 +254,58 @@ def T4File.wellFormed {α} (f : T4File α) : Bool := f.report.ok
 private def words (s : String) : List String :=
   (s.split (fun c => c == ' ' || c == '\t' || c == '\r')).toList.map (·.toString) |>.filter (· ≠ "")
 
-private def isKw (t : String) : Bool :=
+def isKw (t : String) : Bool :=
   t == "PLUS" || t == "MINUS" || t == "UNION" || t == "INTE" || t == "FICTIVE" || t == "ENDV"
 
 /-- read `n item…` up to the next keyword; returns (declared, items, rest) -/
-private def readCounted (ts : List String) : Option Nat × List String × List String :=
+def readCounted (ts : List String) : Option Nat × List String × List String :=
   match ts with
   | [] => (none, [], [])
   | n :: r => (n.toNat?, r.takeWhile (!isKw ·), r.dropWhile (!isKw ·))
+
+/-- what the reader finds between `EQUA` and the end of a `VOLU` line (pure; property C08 proves that it
+recovers exactly what `VolumeT4.__str__` was given) -/
+structure VBody where
+  pluses : List Nat := []
+  minuses : List Nat := []
+  op : Option (OpKind × List Nat) := none
+  fictive : Bool := false
+  ended : Bool := false
+  errs : List String := []
+deriving Repr, DecidableEq, Inhabited
+
+/-- the ids among `items`, and one message per item that is not a natural number -/
+def natItems (ctx : String) (items : List String) : List Nat × List String :=
+  (items.filterMap (·.toNat?),
+   (items.filter (·.toNat?.isNone)).map fun t => s!"bad id '{t}' in {ctx}")
+
+def countErr (ctx kw : String) (d : Option Nat) (n : Nat) : List String :=
+  if d != some n then [s!"{ctx}: {kw} count {d} ≠ {n}"] else []
+
+/-- the body of a `VOLU` line, keyword by keyword; `fuel` ≥ number of tokens suffices -/
+def readBody (ctx : String) : Nat → List String → VBody → VBody
+  | 0, _, b => b
+  | _ + 1, [], b => b
+  | fuel + 1, t :: r, b =>
+    if t == "PLUS" then
+      let (d, items, rest) := readCounted r
+      let (xs, es) := natItems ctx items
+      readBody ctx fuel rest { b with pluses := b.pluses ++ xs, errs := b.errs ++ es ++ countErr ctx "PLUS" d items.length }
+    else if t == "MINUS" then
+      let (d, items, rest) := readCounted r
+      let (xs, es) := natItems ctx items
+      readBody ctx fuel rest { b with minuses := b.minuses ++ xs, errs := b.errs ++ es ++ countErr ctx "MINUS" d items.length }
+    else if t == "UNION" || t == "INTE" then
+      let (d, items, rest) := readCounted r
+      let (xs, es) := natItems ctx items
+      readBody ctx fuel rest
+        { b with op := some (if t == "UNION" then .union else .inte, xs),
+                 errs := b.errs ++ es ++ countErr ctx t d items.length
+                           ++ (if b.op.isSome then [s!"{ctx}: two operators"] else []) }
+    else if t == "FICTIVE" then readBody ctx fuel r { b with fictive := true }
+    else if t == "ENDV" then
+      { b with ended := true, errs := b.errs ++ (if !r.isEmpty then [s!"{ctx}: tokens after ENDV"] else []) }
+    else readBody ctx fuel r { b with errs := b.errs ++ [s!"{ctx}: unexpected token '{t}'"] }
 
 private def parsePairs (c : String) : List (Nat × Nat) :=
   -- "(5518, 6321); (33, 1)"  → [(5518,6321),(33,1)]; anything else is ignored
@@ -302,58 +346,17 @@ private def nats (st : RState) (ts : List String) (ctx : String) : RState × Lis
 private def readVolu (st : RState) (idTok : String) (body : List String) (comment : String) : RState :=
   match idTok.toNat? with
   | none => err st s!"bad volume id '{idTok}'"
-  | some id => Id.run do
+  | some id =>
     let ctx := s!"VOLU {id}"
-    let mut st := st
-    let mut ts := body
-    match ts with
-    | "EQUA" :: r => ts := r
-    | _ => st := err st s!"{ctx}: EQUA expected"
-    let mut pl : List Nat := []
-    let mut mi : List Nat := []
-    let mut op : Option (OpKind × List Nat) := none
-    let mut fict := false
-    let mut ended := false
-    let mut fuel := body.length + 2
-    while fuel > 0 do
-      fuel := fuel - 1
-      match ts with
-      | [] => fuel := 0
-      | "PLUS" :: r =>
-          let (d, items, rest) := readCounted r
-          let (st', xs) := nats st items ctx
-          st := st'
-          if d != some items.length then st := err st s!"{ctx}: PLUS count {d} ≠ {items.length}"
-          pl := pl ++ xs; ts := rest
-      | "MINUS" :: r =>
-          let (d, items, rest) := readCounted r
-          let (st', xs) := nats st items ctx
-          st := st'
-          if d != some items.length then st := err st s!"{ctx}: MINUS count {d} ≠ {items.length}"
-          mi := mi ++ xs; ts := rest
-      | "UNION" :: r =>
-          let (d, items, rest) := readCounted r
-          let (st', xs) := nats st items ctx
-          st := st'
-          if d != some items.length then st := err st s!"{ctx}: UNION count {d} ≠ {items.length}"
-          if op.isSome then st := err st s!"{ctx}: two operators"
-          op := some (.union, xs); ts := rest
-      | "INTE" :: r =>
-          let (d, items, rest) := readCounted r
-          let (st', xs) := nats st items ctx
-          st := st'
-          if d != some items.length then st := err st s!"{ctx}: INTE count {d} ≠ {items.length}"
-          if op.isSome then st := err st s!"{ctx}: two operators"
-          op := some (.inte, xs); ts := rest
-      | "FICTIVE" :: r => fict := true; ts := r
-      | "ENDV" :: r =>
-          ended := true
-          if !r.isEmpty then st := err st s!"{ctx}: tokens after ENDV"
-          ts := []
-      | t :: r => st := err st s!"{ctx}: unexpected token '{t}'"; ts := r
-    if !ended then st := err st s!"{ctx}: ENDV missing"
-    let v : TVol := { id, pluses := pl, minuses := mi, op, fictive := fict, origin := parsePairs comment }
-    return { st with file := { st.file with vols := st.file.vols ++ [v] } }
+    let (st, ts) := match body with
+      | "EQUA" :: r => (st, r)
+      | _ => (err st s!"{ctx}: EQUA expected", body)
+    let b := readBody ctx (body.length + 5) ts {}
+    let st := b.errs.foldl err st
+    let st := if !b.ended then err st s!"{ctx}: ENDV missing" else st
+    let v : TVol := { id, pluses := b.pluses, minuses := b.minuses, op := b.op, fictive := b.fictive,
+                      origin := parsePairs comment }
+    { st with file := { st.file with vols := st.file.vols ++ [v] } }
 
 private def readSurf (st : RState) (idTok : String) (body : List String) : RState :=
   match idTok.toNat? with
